@@ -10,6 +10,7 @@ from __future__ import annotations
 
 import glob
 import os
+import json
 import random
 import shutil
 import tempfile
@@ -67,7 +68,7 @@ def truthful(system, res, info):
                                          'observed': got, 'expected': exp})
 
 
-def run_case(ctx, res, spec):
+def run_case(ctx, res, spec, only_point=None):
     steps = spec['steps']
     # ---- uninterrupted twin, driven step by step to record the stream position before every iteration ----
     K.arm(None, -1)   # count events, never crash
@@ -102,6 +103,8 @@ def run_case(ctx, res, spec):
             inside = [counts_before[i].get(kind, 0) + j for i in first_steps if i < len(counts_before) for j in (1, 2, 3)]
             ks = sorted({k for k in [1, 2, n] + inside + rnd.sample(range(1, n + 1), min(2, n)) if 1 <= k <= n})
         points.extend((kind, k) for k in ks)
+    if only_point is not None:      # replay of ONE crash point
+        points = [tuple(only_point)]
     k0 = 2 if spec.get('continued') and nsteps_done >= 4 else 0
     if k0:
         points = [(kind, at) for kind, at in points if at > counts_before[k0].get(kind, 0)]
@@ -193,8 +196,14 @@ def run_case(ctx, res, spec):
             full = c12.first_diff(got, twin_state, ftol=1e-9)
             if full:
                 cost_only = any(t in full for t in ('misc_costs', 'num_evals', 'added_cost', 'added_error', 'model_costs'))
+                sig2 = sig
+                if sig == 'none' and cost_only and kind in ('td.set', 'td.set.coord', 'td.impute', 'itp.refine') and '.components.cb.' in full:
+                    # F17 signature: the interruption came AFTER the model call of the activation had returned (its costs are already in
+                    # the running average that is saved), nothing of its data was stored, so the same evaluations are made and averaged
+                    # again on resume; `cb` is the component whose model reports a cost that varies from evaluation to evaluation
+                    sig2 = 'interrupted-call-averaged-twice'
                 res.failures.append({'kind': 'resumed-training-differs-in-history-or-cost-accounting',
-                                     'signature': sig if cost_only else 'none', 'input': info, 'observed': full})
+                                     'signature': sig2 if cost_only else 'none', 'input': info, 'observed': full})
             res.hit('resumed')
         finally:
             K.disarm()
@@ -232,16 +241,23 @@ def run(ctx: core.Ctx, only=None) -> core.Result:
                 '(quick); for each: error file exists and loads, saved state satisfies the index/weight invariants and holds only '
                 'true model outputs, resumed training (stream restored) reaches the uninterrupted twin. Every case is '
                 'non-trivial.')
-    specs = [o.get('input', o).get('spec', o.get('input', o)) for o in only] if only is not None else \
-        [c.get('spec', c) for c in core.corpus_cases('C13')] + [gen_spec(ctx.rng) for _ in range(ctx.scale(2, 8))]
-    if only is None and specs:
-        specs[-1].update(two=True, three=True)     # every run has a system with a surrogate-less component
-        specs[0]['continued'] = True               # … and one whose interrupted call continues an existing history
-        if len(specs) > 1:
-            specs[-1]['continued'] = False
+    if only is not None:
+        specs = [o.get('input', o).get('spec', o.get('input', o)) for o in only]
+    else:
+        gen = [gen_spec(ctx.rng) for _ in range(ctx.scale(2, 8))]
+        gen[-1].update(two=True, three=True)     # every run has a system with a surrogate-less component
+        gen[0]['continued'] = True               # … and one whose interrupted call continues an existing history
+        if len(gen) > 1:
+            gen[-1]['continued'] = False
+        specs = [c.get('spec', c) for c in core.corpus_cases('C13')] + gen      # corpus: single crash points (see `pts`)
+    pts = {}
+    for o in (only if only is not None else core.corpus_cases('C13')):
+        i_ = o.get('input', o)
+        if 'crash_kind' in i_ and 'crash_at' in i_:
+            pts[json.dumps(i_.get('spec'), sort_keys=True)] = (i_['crash_kind'], i_['crash_at'])
     for spec in specs:
         with core.guarded(res, 'scenario-raised', {'spec': spec}):
-            run_case(ctx, res, spec)
+            run_case(ctx, res, spec, pts.get(json.dumps(spec, sort_keys=True)))
     kf = {k['id'] for k in core.known_findings() if k.get('status') == 'open' and k['property'] == 'C13'}
     if 'F5b' in kf:
         kept = []
@@ -258,6 +274,20 @@ def run(ctx: core.Ctx, only=None) -> core.Result:
                 ('F5b', 'resume-cost-undercount: when part of an activation\'s data was stored before the interruption, the '
                         'resumed activation books only the remaining points as cost (evaluation counts, added cost and later '
                         'error indicators differ from the uninterrupted run)'))
+    if 'F17' in kf:
+        kept = []
+        for f in res.failures:
+            if f.get('signature') == 'interrupted-call-averaged-twice' and f['kind'] == 'resumed-training-differs-in-history-or-cost-accounting':
+                res.known_hits['F17'] = res.known_hits.get('F17', 0) + 1
+            else:
+                kept.append(f)
+        res.failures = kept
+        if res.known_hits.get('F17'):
+            res.extra.setdefault('known_lines', []).append(
+                ('F17', 'interrupted-call-averaged-twice: an interruption after the model call of an activation has returned leaves its '
+                        'reported costs in the saved running average although none of its data was stored; on resume the same evaluations '
+                        'are made and averaged again - with a cost that varies between evaluations the cost accounts differ from the '
+                        'uninterrupted run'))
     return res
 
 
